@@ -277,6 +277,49 @@ def check_builders(ctx):
             ok = ok and m.longitudinal_att is None
         if not ok:
             ctx.violate("material_from_conf does not carry the configured values", cj, {"kind": "material_from_conf"})
+        # the configuration is read, never shared: annotating what was built (metadata of materials / probes / examination
+        # objects, as load_expdata itself does with metadata["from_brain"]) leaves the configuration as loaded, and what is
+        # built next carries the configured values again
+        import copy
+        meta_conf = {"long_name": "Steel", "source": {"book": "K&K", "page": 12}}
+        solid_m = {"longitudinal_vel": vl, "transverse_vel": vt, "density": rho, "state_of_matter": "solid", "metadata": copy.deepcopy(meta_conf)}
+        fluid_m = {"longitudinal_vel": 1480.0, "density": 1000.0, "state_of_matter": "liquid", "metadata": {"long_name": "Water"}}
+        full_conf = arim.config.Config({"probe": dict(conf["probe"], metadata={"serial": "A1"}), "block_material": solid_m, "couplant_material": fluid_m,
+                                        "frontwall": {"xmin": -0.01, "xmax": 0.02, "z": 0.0, "numpoints": 3},
+                                        "backwall": {"xmin": -0.01, "xmax": 0.02, "z": 0.03, "numpoints": 3}})
+        snap = copy.deepcopy(dict(full_conf))
+        cjm = {"op": "builders_do_not_share_the_configuration", "conf": snap}
+        ctx.case(("alias", repr(snap)), True)
+
+        def annotate(obj):
+            for tgt in [getattr(obj, "metadata", None)] + [getattr(getattr(obj, a, None), "metadata", None) for a in ("block_material", "couplant_material", "material")]:
+                if isinstance(tgt, dict):
+                    tgt["annotated_by_user"] = True
+                    tgt["long_name"] = "EDITED"
+                    if isinstance(tgt.get("source"), dict):
+                        tgt["source"]["page"] = -1
+
+        builders = [("material_from_conf", lambda: native.material_from_conf(full_conf["block_material"])),
+                    ("examination_object_from_conf", lambda: native.examination_object_from_conf(full_conf)),
+                    ("block_in_immersion_from_conf", lambda: native.block_in_immersion_from_conf(full_conf)),
+                    ("probe_from_conf", lambda: native.probe_from_conf(full_conf, apply_probe_location=False))]
+        for bname, bld in builders:
+            try:
+                o1 = bld()
+                annotate(o1)
+                o2 = bld()
+            except Exception as e:
+                ctx.violate(f"{bname} raised {type(e).__name__}: {str(e)[:80]}", cjm, {"kind": "builder_raises", "builder": bname})
+                continue
+            ctx.count("alias:" + bname)
+            if dict(full_conf) != snap:
+                ctx.violate(f"{bname}: annotating the metadata of the object that was built changed the configuration itself "
+                            "(the object shares a mapping with the configuration)", cjm, {"kind": "conf_aliased", "builder": bname})
+                full_conf = arim.config.Config(copy.deepcopy(snap))
+                continue
+            mat2 = o2 if bname == "material_from_conf" else getattr(o2, "block_material", None)
+            if mat2 is not None and mat2.metadata.get("long_name") != "Steel":
+                ctx.violate(f"{bname}: a second object built from the same configuration carries the first object's edited metadata", cjm, {"kind": "conf_aliased", "builder": bname})
         # grid
         xmin, zmin = float(rng.uniform(-0.02, 0)), float(rng.uniform(0, 0.01))
         xmax, zmax = xmin + float(rng.uniform(1e-3, 0.03)), zmin + float(rng.uniform(1e-3, 0.03))
